@@ -3,3 +3,13 @@ chk("C01", "exploration", "A",
     "DESIGN.md §2 C01",
     "Every single-bit mutant of two honest raw quotes and of every field of the parsed message, and every combination of at most 2 (quick) / 3 (thorough) forgeries from a 9-dimensional menu (who signs what, key forms, hash binding, signature forms, region resizing), is handed to verify.RawTdxQuote / verify.TdxQuote; any acceptance is judged by an independent parser and link checker. Exhaustive within those alphabets, which is the right level for an 'accepted => authentic' statement whose counterexamples are single broken links.",
     CRYPTO + " Random multi-byte mutation and coverage-guided fuzzing named in the quantifier are sampling and are not performed.")
+chk("C09", "exploration", "A",
+    "bounded exhaustive differential exploration: real parser/serialiser vs an independent v4 layout parser on all truncations, all single-bit mutants, all size/type-field boundary values and pairs, and a product of well-formed messages",
+    "DESIGN.md §2 C09",
+    "For every truncation length, every single-bit mutant, every boundary value of each of the nine size/type fields (and all pairs), trailing-byte and cut-signed-data variants of two honest quotes, the library parser must accept exactly what the independent layout parser accepts, every message field must equal the reference slice, and serialising must reproduce the input; a product of well-formed messages (auth 0..65535, chain 0..typical, extra bytes, all-zero/all-FF contents) must survive serialise-then-parse. Exhaustive inside these alphabets.",
+    "Reference layout table transcribed from Intel's DCAP v4 format (harness/world/quote.go, harness/ref/quote.go). Random / coverage-guided mutation is sampling and is not performed.")
+chk("C10", "fault_enumeration", "A",
+    "bounded exhaustive fault enumeration on the real entry points under recover + watchdog: all truncations / size-field values and pairs, all single and double structural message mutations, deviation-bounded DFS (<=2) over endpoint answers, all truncations / tag / length changes of the SGX extension DER",
+    "DESIGN.md §2 C10",
+    "Every listed public entry point is called on every input of the enumerated untrusted kinds and must return a value or an error: ~40k raw inputs x 3 entry points, 250 single + 31k double structural mutations x 8-9 entry points, ~7k endpoint-answer combinations at the four fetch points, ~1.8k DER variants of the SGX extension. A crash is attributed to its innermost library frame, so distinct crash sites are distinct findings.",
+    "Unrecoverable runtime faults would abort the whole check rather than be attributed to a case. Coverage-guided fuzzing is sampling and is not performed.")
